@@ -40,6 +40,7 @@ var errCallback = errors.New("callback failed")
 
 func Run(c *Case) *vkit.Outcome {
 	o := &vkit.Outcome{}
+	storekit.SetVariant(vkit.HashOf(c))
 	ctx, cancel := context.WithCancel(context.Background())
 	defer cancel()
 	bg := context.Background()
